@@ -78,8 +78,28 @@ Proof.
 Qed.
 Print Assumptions dyn_readable_exclusive_refuted.
 
+(* Enum(values='<name>') (dynamic Enum): an accepted value is stored unchanged and is a member of the collection the named
+   attribute holds at that moment; READING yields a member of the collection as it is THEN — the cached value if it still
+   is one, else the first member; None for an empty collection *)
+Theorem dyn_enum_member :
+  forall E c s src v w, validate_s E c s (DEnumDyn src) v = Accept w ->
+    w = v /\ exists items, read c s src = Some (PList items) /\ py_in v items = true.
+Proof. exact dyn_enum_member_lemma. Qed.
+Print Assumptions dyn_enum_member.
+
+Theorem dyn_enum_readable_member :
+  forall c s n src x, dyn_enum_readable c s n src = Some x ->
+    exists items, read c s src = Some (PList items) /\
+                  match items with
+                  | [] => x = PNone
+                  | y :: _ => py_eq y y = true -> py_in x items = true
+                  end.
+Proof. exact dyn_enum_readable_member_lemma. Qed.
+Print Assumptions dyn_enum_readable_member.
+
 Theorem validate_s_is_validate_elsewhere :
-  forall E c s d v, (forall lo hi m, d <> DRangeDyn lo hi m) -> validate_s E c s d v = validate E d v.
+  forall E c s d v, (forall lo hi m, d <> DRangeDyn lo hi m) -> (forall src, d <> DEnumDyn src) ->
+    validate_s E c s d v = validate E d v.
 Proof. exact validate_s_static. Qed.
 Print Assumptions validate_s_is_validate_elsewhere.
 
@@ -133,7 +153,8 @@ Proof. exact setattr_traiterror_no_effect. Qed.
 Print Assumptions reject_no_effect.
 
 (* any exception (TraitError or one of the value's own protocol) leaves every attribute as it
-   was, provided no Map/PrefixMap sits inside an Either (F19), mapped defaults are keys, and the value
+   was, provided mapped defaults are keys (post_safe; it also still asks that no Map sits inside an Either, which is
+   no longer necessary since F19 was repaired), and the value
    is not the Undefined sentinel (which bypasses validation: F22) *)
 Theorem exception_no_effect :
   forall E c s n v s' e, is_undefined v = false -> post_safe c = true -> setattr E c s n v = (s', Raise e) -> s' = s.
@@ -150,15 +171,6 @@ Theorem failed_constructor_no_effect :
   forall E c s kw s' e, step E c s (Ctor, kw) = (s', Raise e) -> s' = s.
 Proof. exact ctor_failure_no_effect. Qed.
 Print Assumptions failed_constructor_no_effect.
-
-Theorem exception_no_effect_refuted :   (* F19 *)
-  exists E c s n v s' e, setattr E c s n v = (s', Raise e) /\ e <> ETraitError /\ s' <> s.
-Proof.
-  destruct exception_no_effect_refuted_lemma as (s' & e & H1 & H2 & H3).
-  exists (mkEnv [(3, 3); (6, 6)] 110 [] []), [(0, (DCompound [DMap [(PStr [97], PInt 1)]; DInt], PNone))], [], 0, (PInt 5), s', e.
-  auto.
-Qed.
-Print Assumptions exception_no_effect_refuted.
 
 (* the only exceptions other than TraitError that surface are those raised by the value's own
    __index__/__float__/__complex__ or an overflowing numeric conversion (of the value or of an item
@@ -284,4 +296,14 @@ Example dict_members_nonvacuous :
   validate E0 d (PDict [(PInt 1, PList [PIndexObj (Raises EValueError)])]) = Propagate EValueError /\
   dom E0 d (PDict [(PInt 1, PList [PFloat (FFin false 1000)])]) = true /\
   dom E0 d (PDict [(PStr [49], PList [])]) = false.
+Proof. vm_compute. repeat split. Qed.
+
+Example dynamic_enum_nonvacuous :
+  let c := [(0, (DEnumDyn 2, PNone)); (2, (DList DStr 0 100, PList []))] in
+  let ops := [(Attr, [(2, PList [PStr [114]; PStr [98]])]); (Attr, [(0, PStr [98])]); (Attr, [(0, PStr [120])]);
+              (TraitSetQ, [(2, PList [PStr [99]; PStr [109]])])] in
+  class_ok E0 c = true /\ post_safe c = true /\ ops_defined ops = true /\
+  map (fun p => o_out (snd p)) (model_hist E0 c [] ops) = [Ok; Ok; Raise ETraitError; Ok] /\
+  dyn_enum_readable c (o_after (snd (nth 1 (model_hist E0 c [] ops) (((Attr, []) : op), mkObs Ok true [])))) 0 2 = Some (PStr [98]) /\
+  dyn_enum_readable c (o_after (snd (nth 3 (model_hist E0 c [] ops) (((Attr, []) : op), mkObs Ok true [])))) 0 2 = Some (PStr [99]).
 Proof. vm_compute. repeat split. Qed.
